@@ -72,7 +72,7 @@ theorem prep_binv (cfg : Config S) (P : NodeId → Proto S σ) (w : World S σ) 
 
 theorem execStep_binv (cfg : Config S) (hdt : 0 ≤ cfg.dt) (P : NodeId → Proto S σ)
     (e : Ev (EvKind S)) (rest : List (Ev (EvKind S))) (w : World S σ) (h : BInv cfg w)
-    (hli : w.iter = w.rexecuted.length) (hq : w.loop.queue = e :: rest) (hnd : isDone cfg w = false) :
+    (hq : w.loop.queue = e :: rest) (hnd : isDone cfg w = false) :
     BInv cfg (execStep cfg P e rest w) := by
   have hd : ∀ D, cfg.duration = some D → e.ts ≤ D := by
     intro D hD
@@ -128,10 +128,83 @@ theorem step_binv (cfg : Config S) (hdt : 0 ≤ cfg.dt) (P : NodeId → Proto S 
       split
       · exact h1
       · rename_i e rest hq
-        have hs := execStep_binv cfg hdt P e rest w1 h1 hl1 hq (by simpa using hnd)
+        have hs := execStep_binv cfg hdt P e rest w1 h1 hq (by simpa using hnd)
         split
         · exact finalise_binv cfg P _ hs
         · exact hs
+
+theorem stepRaised_binv (cfg : Config S) (hdt : 0 ≤ cfg.dt) (P : NodeId → Proto S σ) (w : World S σ)
+    (h : BInv cfg w) : BInv cfg (stepRaised cfg P w) := by
+  unfold stepRaised
+  split
+  · exact h
+  · have h1 : BInv cfg (if w.initialized then w else initialise cfg P w) := by
+      have := prep_binv cfg P w h
+      unfold prep at this
+      exact this
+    generalize (if w.initialized then w else initialise cfg P w) = w1 at h1
+    simp only
+    split
+    · exact finalise_binv cfg P w1 h1
+    · rename_i hnd
+      split
+      · exact h1
+      · rename_i e rest hq
+        have hnd' : isDone cfg w1 = false := by simpa using hnd
+        have hd : ∀ D, cfg.duration = some D → e.ts ≤ D := by
+          intro D hD
+          unfold isDone at hnd'
+          rw [hq, hD] at hnd'
+          simp at hnd'
+          exact hnd'.1
+        have hn : ∀ N, cfg.maxIter = some N → w1.iter < N := by
+          intro N hN
+          unfold isDone at hnd'
+          rw [hq, hN] at hnd'
+          simp at hnd'
+          exact hnd'.2
+        have e1 := ext_execEv cfg hdt P e (popped e rest w1)
+        constructor
+        · intro D hD x hx
+          have hx : x ∈ (execEv cfg P e (popped e rest w1)).rexecuted := hx
+          rw [e1.exec_eq] at hx
+          rcases List.mem_cons.mp hx with rfl | hx
+          · exact hd D hD
+          · exact h1.dur D hD x hx
+        · intro N hN _
+          show (execEv cfg P e (popped e rest w1)).iter ≤ N
+          rw [e1.iter_eq]
+          exact Nat.le_of_lt (hn N hN)
+        · intro D hD _
+          show (execEv cfg P e (popped e rest w1)).loop.now ≤ D
+          rw [e1.now_eq]
+          exact hd D hD
+
+/-- the bounds also hold when callbacks may let exceptions escape under a driver that keeps stepping: no event
+    beyond the duration is ever executed, the clock never passes it, the iteration counter never passes the limit -/
+theorem C04_bounds_tolerant {cfg : Config S} (hdt : 0 ≤ cfg.dt) {P : NodeId → Proto S σ} {w : World S σ}
+    (h : ReachableT cfg P w) : BInv cfg w := by
+  induction h with
+  | init => exact init_binv cfg P
+  | @step w0 hr ih =>
+    cases hf : w0.finalized with
+    | true => unfold step; simp [hf]; exact ih
+    | false =>
+      rw [step_eq cfg P w0 hf]
+      have h1 := prep_binv cfg P w0 ih
+      generalize prep cfg P w0 = w1 at h1
+      split
+      · exact finalise_binv cfg P w1 h1
+      · rename_i hnd
+        split
+        · exact h1
+        · rename_i e rest hq
+          have hs := execStep_binv cfg hdt P e rest w1 h1 hq (by simpa using hnd)
+          split
+          · exact finalise_binv cfg P _ hs
+          · exact hs
+  | ext n p _ ih => exact binv_of_ext (ext_runProg cfg n p _) ih
+  | raised _ ih => exact stepRaised_binv cfg hdt P _ ih
 
 theorem reachable_binv {cfg : Config S} (hdt : 0 ≤ cfg.dt) {P : NodeId → Proto S σ} {w : World S σ}
     (h : Reachable cfg P w) : BInv cfg w := by
